@@ -210,6 +210,7 @@ class Case final : public sim::CaseBase {
                         : wg->WaitUntil(yaclib_std::chrono::steady_clock::now() + nanoseconds{wt.timeout});
         break;
     }
+    sim::ReuseDeadFrames();
     wt.t_return = sim::NowNs();
     wt.timed_result = ok;
     if (ok) {
